@@ -327,6 +327,20 @@ def forward_call(message):
     return None
 
 
+def fds_param(message):
+    """Name of the descriptor-list parameter of the re-marshal entry point (`oobFDs` today): the one parameter of that
+    method with "fd" in its name; None when there is no such method or no such parameter."""
+    fc = forward_call(message)
+    if not fc:
+        return None
+    try:
+        ps = list(inspect.signature(getattr(message.DBusMessage, fc[0])).parameters.values())[1:]
+    except (TypeError, ValueError):
+        return None
+    names = [p.name for p in ps if 'fd' in p.name.lower()]
+    return names[0] if len(names) == 1 else None
+
+
 def cut(raw):
     """(header, padding, body) of message bytes by the layout: 16 fixed bytes, array length word, padding to 8."""
     raw = bytes(raw)
